@@ -354,7 +354,6 @@ def drv_roundtrip_structured(ctx: Ctx, sub: SubCheck):
             t.sample(sub.name, {"block": chunk[len(chunk) // 2]})
 
     ctx.shards(work, chunks)
-    ctx.tally.exhaustive[sub.name] = True
     ctx.tally.extra["structured_blocks"] = len(blocks)
 
 
